@@ -710,6 +710,7 @@ func genC17(r *rng, tier string, emit func(string)) {
 		}
 		emit(fmt.Sprintf("p12 %s %s %d", hx([]byte(p)), hx([]byte(w)), r.intn(4)))
 	}
+	c17kGen(r, tier, emit) // PKCS#12 KDF / MAC / PBE / MAC decision (Model.PKCS12)
 }
 
 // ---- a small definite-length TLV tree, to re-encode an envelope in the BER "streaming" form -----------------
